@@ -32,6 +32,16 @@ RING_SMARTS = ['C1CC1', 'C1CCC1', 'C1CCCC1', 'C1CCCCC1', 'C1CCCCCC1', 'C1CC2CC12
                'C1CC1.C1CCC1']
 
 
+# rings through elements of the second matcher word (Z > 56): target and the same ring written from different atoms
+METALLACYCLES = [('C1CC[Pt]C1', ['[Pt]1CCCC1', 'C1CC[Pt]C1', 'C1C[Pt]CC1', '[Pt]1-;@CCCC1']),
+                 ('C1CN[Pt]N1', ['[Pt]1NCCN1', 'N1CCN[Pt]1', 'C1N[Pt]NC1']),
+                 ('C1CC[Hg]C1', ['[Hg]1CCCC1', 'C1C[Hg]CC1']),
+                 ('C1C[Pb]CC1C', ['[Pb]1CCC(C)C1', 'C1C[Pb]CC1', 'CC1CC[Pb]C1']),
+                 ('C1CC[Pt]2(C1)CCCC2', ['[Pt]1CCCC1', 'C1CC[Pt]2(C1)CCCC2', '[Pt]12(CCCC1)CCCC2']),
+                 ('C1CC[Sn]C1', ['[Sn]1CCCC1', 'C1C[Sn]CC1']),
+                 ('Cl[Pt]1(Cl)NCCN1', ['[Pt]1NCCN1', 'Cl[Pt]1NCCN1', 'N1CCN[Pt]1(Cl)Cl'])]
+
+
 def shards(tier, seed):
     n = 900 if tier == 'quick' else 8000
     out = [dict(shard=i, n=n) for i in range(14)]
@@ -48,7 +58,7 @@ def run_shard(shard, tier, seed):
     strat = st.fixed_dictionaries({
         'target': st.one_of(specs, specs, ring_assemblies()), 'other': specs,
         'mode': st.sampled_from(['sub-mol', 'sub-mol', 'sub-query', 'sub-query', 'sub-query', 'other-mol', 'other-query', 'smarts',
-                                 'smarts', 'multi', 'auto', 'ring-smarts', 'ring-smarts']),
+                                 'smarts', 'multi', 'auto', 'ring-smarts', 'ring-smarts', 'metallacycle']),
         'seed': st.integers(0, 2 ** 31)})
     return hyp_run(ID, strat, check_case, max_examples=shard['n'], seed=seed * 1000 + shard['shard'])
 
@@ -152,7 +162,12 @@ def check_case(case, rec):
     from chython import smarts, MoleculeContainer
     rnd = _random.Random(case['seed'])
     try:
-        t = molgen.build(case['target'])
+        if case['mode'] == 'metallacycle':
+            from chython import smiles
+            tsmi, pats = METALLACYCLES[case['seed'] % len(METALLACYCLES)]
+            t = smiles(tsmi)
+        else:
+            t = molgen.build(case['target'])
     except molgen.Reject as e:
         rec.count(f'generator-reject:{e}')
         return
@@ -176,6 +191,13 @@ def check_case(case, rec):
             p = smarts(SMARTS[case['seed'] % len(SMARTS)])
         elif mode == 'ring-smarts':
             p = smarts(RING_SMARTS[case['seed'] % len(RING_SMARTS)])
+        elif mode == 'metallacycle':
+            if rnd.random() < .6:
+                p = smarts(rnd.choice(pats))
+            else:
+                atoms = list(t)
+                rnd.shuffle(atoms)
+                p = as_query(t, atoms, rnd)
         else:  # multi-component pattern from the target (or target + other)
             a1 = cut(t, rnd, rnd.randint(1, 4))
             a2 = cut(t, rnd, rnd.randint(1, 3))
